@@ -411,18 +411,27 @@ func runC17(c *runCtx) {
 			}
 		}
 		// the language server's format action: same obligations as the fixers
-		{
+		lspCheck := func(text string, orig lexView, feature string) {
 			if f1, ok := lspFormatText(text, i%4 != 0, 2+i%3); ok {
 				res.count("lspfmt|"+text, true)
 				wit := map[string]any{"action": "textDocument/formatting", "text": text}
 				if orig.ok {
 					if shape := diffShape(orig, lexOf(f1)); shape != "" {
-						res.fail("lsp-format-changes-tokens:"+shape, "the language server's format action changes the token sequence / comment texts ("+shape+"; text with "+feature+")", wit, map[string]any{"formatted": f1})
+						res.fail("lsp-format-changes-tokens:"+shape, "the language server's format action (its edits applied to the text under the protocol's position rules) changes the token sequence / comment texts ("+shape+"; text with "+feature+")", wit, map[string]any{"formatted": f1})
 					}
 				}
 				if f2, ok2 := lspFormatText(f1, i%4 != 0, 2+i%3); ok2 && f2 != f1 {
 					res.fail("lsp-format-not-idempotent", "formatting the formatted text changes it again (text with "+feature+")", wit, map[string]any{"once": f1, "twice": f2})
 				}
+			}
+		}
+		lspCheck(text, orig, feature)
+		if i%6 == 0 && len(text) < 4000 {
+			// the same text ending in a line without a line end that holds characters outside the basic plane (two UTF-16
+			// units, four bytes, one character each), in a comment and in a literal: where the last position of the document is
+			for _, tail := range []string{"  -- done 🚀🚀", "  select tag from t where tag = '🎉𝒳'", "\t-- 𝔘𝔫𝔦 ", "select '😀' , \"𝒴\"  "} {
+				t2 := strings.TrimRight(text, "\r\n") + "\n" + tail
+				lspCheck(t2, lexOf(t2), feature+"+astral-last-line")
 			}
 		}
 	}
